@@ -8,7 +8,7 @@ from .alpha import DAV, CALDAV
 from .world import World
 
 CH = {"x": "x", " ": " ", "%": "%", "#": "#", "?": "?", ";": ";", "+": "+", "e'": "é",
-      "2": "2", "4": "4", "0": "0"}
+      "2": "2", "4": "4", "0": "0", "ca": "\u0301"}
 
 
 def concrete(name):
